@@ -23,11 +23,12 @@ if (cd "$scratch" && patch -p1 -s --no-backup-if-mismatch < "$dst/patch.diff"); 
 if $applies; then
   if (cd "$scratch" && go build ./... && go test -vet=off -count=1 ./... ) > "$scratch/_suite.log" 2>&1; then suite=true; fi
   cp "$dst/demo_test.go" "$scratch/$pkg/zz_demo_seeded_test.go"
-  if ! (cd "$scratch" && go test -vet=off -count=1 -run 'TestDemoSeeded' ./$pkg/ ) > "$scratch/_demo_with.log" 2>&1; then demo_fails=true; fi
+  # DEMO_FLAGS: extra go test flags a demonstration needs (e.g. "-tags roman_noregexp", "-race")
+  if ! (cd "$scratch" && go test -vet=off -count=1 ${DEMO_FLAGS:-} -run 'TestDemoSeeded' ./$pkg/ ) > "$scratch/_demo_with.log" 2>&1; then demo_fails=true; fi
   # pristine
   rm -rf "$scratch.p"; mkdir "$scratch.p"; rsync -a --exclude .git /repo/ "$scratch.p/"
   cp "$dst/demo_test.go" "$scratch.p/$pkg/zz_demo_seeded_test.go"
-  if (cd "$scratch.p" && go test -vet=off -count=1 -run 'TestDemoSeeded' ./$pkg/ ) > "$scratch/_demo_without.log" 2>&1; then demo_passes=true; fi
+  if (cd "$scratch.p" && go test -vet=off -count=1 ${DEMO_FLAGS:-} -run 'TestDemoSeeded' ./$pkg/ ) > "$scratch/_demo_without.log" 2>&1; then demo_passes=true; fi
   rm -rf "$scratch.p"
   rm -f "$scratch/$pkg/zz_demo_seeded_test.go"
 fi
@@ -61,7 +62,7 @@ meta={
    "builds_and_unedited_suite_passes_with_change": suite=="true",
    "demo_fails_with_change": df=="true",
    "demo_passes_without_change": dp=="true",
-   "commands": ["patch -p1 < patch.diff (scratch copy of /repo)", "go build ./... && go test -vet=off -count=1 ./...", "go test -vet=off -count=1 -run TestDemoSeeded ./%s/ (with and without the change)"%pkg],
+   "commands": ["patch -p1 < patch.diff (scratch copy of /repo)", "go build ./... && go test -vet=off -count=1 ./...", "go test -vet=off -count=1 %s -run TestDemoSeeded ./%s/ (with and without the change)"%(os.environ.get("DEMO_FLAGS",""),pkg)],
  },
  "checks_run_against_change": json.loads(results),
 }
